@@ -91,7 +91,7 @@ def split_url(url):
                 port=(int(port) if port else None), path=path, query=query or '')
 
 
-def read_reply(block):
+def read_reply(block, wsc=None):
     """RFC 7230 reader of a reply header block (up to and including the first empty line).
        returns dict(status_cls, code, headers{name: [values]}, anomalies[list])"""
     anomalies = []
@@ -111,8 +111,11 @@ def read_reply(block):
         else:
             status_cls, code = 'not101', None
     headers, order, cur = {}, [], None
+    DROPPED = object()
     for ln in lines[1:]:
         if ln[:1] in (b' ', b'\t'):
+            if cur is DROPPED:
+                continue        # continuation of a line that the strict reading does not take for a field
             if cur is None:
                 anomalies.append('orphan-continuation')
                 continue
@@ -130,6 +133,13 @@ def read_reply(block):
             # it is not the header it resembles - the line contributes nothing
             cur = None
             continue
+        if colon and wsc is not None and name != name.rstrip(b' \t') and TOKEN.fullmatch(name.rstrip(b' \t')):
+            # whitespace between field name and colon (RFC 7230 3.2.4: a recipient rejects the message or removes the whitespace):
+            # two admissible readings - the caller asks for both and is decisive only where they agree
+            if wsc == 'strict':
+                cur = DROPPED
+                continue
+            name = name.rstrip(b' \t')
         if not colon or not TOKEN.fullmatch(name):
             anomalies.append('bad-field-line')
             cur = None if not colon else cur
@@ -183,7 +193,16 @@ def deflate_params_verdict(ext_values):
 def reply_verdict(block, digest):
     """what the property demands for a complete reply header block.
        returns (verdict in ready|rejected|either, info dict)"""
-    r = read_reply(block)
+    if re.search(rb'\r\n[!#$%&\'*+\-.^_`|~0-9A-Za-z]+[ \t]+:', block):
+        # whitespace before a colon: decisive only where the tolerant and the strict reading agree
+        v1, i1 = _reply_verdict(block, digest, 'tolerant')
+        v2, _i2 = _reply_verdict(block, digest, 'strict')
+        return (v1 if v1 == v2 else 'either'), i1
+    return _reply_verdict(block, digest, None)
+
+
+def _reply_verdict(block, digest, wsc):
+    r = read_reply(block, wsc)
     h = r['headers']
     up, acc = h.get(b'upgrade', []), h.get(b'sec-websocket-accept', [])
     up_ok = len(up) == 1 and up[0].lower() == b'websocket'
@@ -496,7 +515,8 @@ def gen_reply(rng, key, mode=None):
         intended = None
         sub = rng.choice(['no-colon', 'space-before-colon', 'leading-colon', 'orphan-fold', 'vt-after-accept', 'ff-after-accept', 'fs-before-accept', 'nonascii-value',
                           'bare-lf', 'bare-cr', 'blank-line-ws', 'tab-version', 'two-spaces', 'no-version', 'lowercase-http', 'nul-in-status', 'us-line', 'fold-after-blank',
-                          'name-only-ws', 'nonascii-accept', 'empty-name-fold', 'cr-in-accept', 'vt-fold'])
+                          'name-only-ws', 'nonascii-accept', 'empty-name-fold', 'cr-in-accept', 'vt-fold',
+                          'space-colon-fold-accept', 'space-colon-fold-upgrade', 'space-colon-fold-junk'])
         s = sub
         if s == 'no-colon':
             body = b'garbage line without colon' + CRLF + body
@@ -544,6 +564,14 @@ def gen_reply(rng, key, mode=None):
             body = b'Upgrade: websocket' + CRLF + b'Sec-WebSocket-Accept: \r' + digest + b'\n' + CRLF
         elif s == 'vt-fold':
             body = b'Upgrade: websocket' + CRLF + b'Sec-WebSocket-Accept: ' + digest[:5] + CRLF + b'\x0b' + digest[5:] + CRLF
+        # whitespace between field name and colon AND a continuation line, on a header the client inspects: the continuation belongs
+        # to that header (whatever name it is stored under)
+        elif s == 'space-colon-fold-accept':
+            body = b'Upgrade: websocket' + CRLF + b'Sec-WebSocket-Accept :' + CRLF + b' ' + digest + CRLF
+        elif s == 'space-colon-fold-upgrade':
+            body = b'Upgrade\t:' + CRLF + b'\twebsocket' + CRLF + b'Sec-WebSocket-Accept: ' + digest + CRLF
+        elif s == 'space-colon-fold-junk':
+            body = b'Upgrade : websocket' + CRLF + b' h2c' + CRLF + b'Sec-WebSocket-Accept : ' + digest + CRLF + b' junk' + CRLF
     block = status_line + CRLF + body + CRLF
     return block, dict(mode=mode, sub=sub, intended=intended, plain=plain, proto=proto)
 
@@ -1112,6 +1140,19 @@ def explore(res, tier, seed, model_ok=True):
         if chr(c).isalpha():
             nflip += 1
             exh.append(('accept-flip', b'HTTP/1.1 101 X\r\n' + base + b'Sec-WebSocket-Accept: ' + xd[:i] + xd[i:i + 1].swapcase() + xd[i + 1:] + CRLF + CRLF, 'rejected'))
+    # whitespace between field name and colon combined with a continuation line, on each header the client inspects; for every
+    # blank spelling: good value folded (either reading may apply), junk folded onto a good value (never Ready)
+    nwsf = 0
+    for wsb in (b' ', b'\t', b' \t'):
+        for lead in (b' ', b'\t'):
+            H = b'HTTP/1.1 101 X\r\n'
+            exh.append(('ws-colon-fold', H + b'Upgrade: websocket\r\nSec-WebSocket-Accept' + wsb + b':\r\n' + lead + xd + CRLF + CRLF, None))
+            exh.append(('ws-colon-fold', H + b'Upgrade' + wsb + b':\r\n' + lead + b'websocket\r\nSec-WebSocket-Accept: ' + xd + CRLF + CRLF, None))
+            exh.append(('ws-colon-fold', H + b'Upgrade: websocket\r\nSec-WebSocket-Accept' + wsb + b': ' + xd + CRLF + lead + b'junk' + CRLF + CRLF, 'rejected'))
+            exh.append(('ws-colon-fold', H + b'Upgrade' + wsb + b': websocket\r\n' + lead + b'h2c\r\nSec-WebSocket-Accept: ' + xd + CRLF + CRLF, 'rejected'))
+            exh.append(('ws-colon-fold', H + b'Upgrade: websocket\r\nSec-WebSocket-Accept' + wsb + b': ' + xd + CRLF + lead + rfc_accept(b'x' * 24) + CRLF + CRLF, 'rejected'))
+            nwsf += 5
+    res.exhaustive['whitespace_before_colon_with_fold'] = nwsf
     for kind, block, intended in exh:
         items.append((xkey.hex(), block.hex()))
         metas.append((xkey, block, dict(mode='exh:' + kind, sub=None, intended=intended, plain=False, proto=None)))
